@@ -63,6 +63,7 @@ def xlate (NT : Alphabet) (ws : List String) : String :=
   | some g =>
     let n := (argNat? ws "n").getD 0
     let windowed := flag "W"
+    let asText := flag "out"
     let rec go (fuel i : Nat) (w : Work) (acc : String) : Option (Work × String) :=
       match fuel with
       | 0 => some (w, acc)
@@ -76,12 +77,14 @@ def xlate (NT : Alphabet) (ws : List String) : String :=
         | none => none
         | some w' =>
           let news := (w'.c.out.take (w'.c.out.length - w.c.out.length)).reverse
-          go fuel (i + 1) w' (acc ++ String.join (news.map (orfStrX name desc)))
+          go fuel (i + 1) w' (acc ++ String.join (news.map fun o =>
+            if asText then hexOfBytes ((fastaOrf AA name desc o).map UInt8.ofNat) else orfStrX name desc o))
     match go n 0 {} "" with
     | none => "fault"
     | some (w, acc) =>
       let b (x : Bool) : Nat := if x then 1 else 0
-      s!"ok w={b wc.doWatson} c={b wc.doCrick} u={b wc.usingInit} l={wc.minlen} f=1 n={w.c.out.length}" ++ acc
+      if asText then s!"ok w={b wc.doWatson} c={b wc.doCrick} u={b wc.usingInit} l={wc.minlen} f=1 text={if acc.isEmpty then "-" else acc}"
+      else s!"ok w={b wc.doWatson} c={b wc.doCrick} u={b wc.usingInit} l={wc.minlen} f=1 n={w.c.out.length}" ++ acc
 
 def step (s : Unit) (line : String) : Unit × String :=
   let ws := words line
